@@ -1,2 +1,7 @@
-import AlgoVerif.Common
-/-! # C14 — property theorems (none yet) -/
+import AlgoVerif.Model.C14
+import AlgoVerif.Model.C14W
+import AlgoVerif.Spec.C14
+/-! # C14 — property theorems (under construction) -/
+open AlgoVerif AlgoVerif.C14
+
+theorem C14_placeholder : (Graph.new 0).n = 0 := rfl
